@@ -231,7 +231,8 @@ def check(tr):
                         cost = None
                         if A.cost:
                             nxt_cb = next((e for e in cbres if e["s"] > c["s1"] and e["trial"] == t), None)
-                            cost = (nxt_cb or {}).get("result", {}).get("total_cost", res.get("cost"))
+                            rr = (nxt_cb or {}).get("result", {})
+                            cost = next((v for k, v in rr.items() if k.startswith("total_")), res.get("cost", res.get("elapsed_time")))
                         lst.append({"trial": t, "metric": res[A.metric], "cost": cost, "promoted": False})
             if d == "PAUSE":
                 A.state[t] = "paused"
